@@ -16,6 +16,7 @@ import (
 	"github.com/NethermindEth/juno/db"
 	"github.com/NethermindEth/juno/db/memory"
 	"github.com/NethermindEth/juno/db/pebblev2"
+	"github.com/NethermindEth/juno/pruner"
 	"verif/harness/lib"
 )
 
@@ -27,6 +28,11 @@ type Config struct {
 	Pebble     bool   `json:"pebble"`        // destinations on pebblev2 instead of the memory DB
 	AllowDrain bool   `json:"allow_drain"`   // blocks may empty the storage of a system contract
 	Reopen     bool   `json:"reopen"`        // re-open every destination Blockchain on its DB before each check
+	// Seeded: the destinations are built the way node/node.go builds them: with a retention floor
+	// seeded from the database (blockchain.WithRetentionFloor(pruner.NewRetentionFloor(db))), so that
+	// StateAtBlockNumber takes the seeded branches of pruner/retention.go (false: blockchain.New's
+	// default, an unseeded floor: header -> hash -> hash index)
+	Seeded bool `json:"seeded_floor"`
 }
 
 func kindName(newState bool) string {
@@ -44,6 +50,10 @@ type node struct {
 	store db.KeyValueStore
 	fault *faultDB // destinations only
 	dir   string
+	// retention floor of this node's process: seeded (destinations of a Seeded history) or not;
+	// floor = what the Lean model says a process started on this database seeds
+	seeded bool
+	floor  int
 }
 
 // Failure is a property violation (oracle on the real code) or a model/implementation mismatch.
@@ -82,6 +92,12 @@ type Engine struct {
 	prevOK   map[uint64]bool // reads that were made and right at the previous check
 	only     map[string]bool // when set, CheckAll reads these nodes only
 	rpc      map[string]*rpcPair
+	// prunedBelow: the block commitments below this block were deleted from the destinations'
+	// databases (step "prune-probe": what the pruner leaves in the bucket the floor is seeded from)
+	prunedBelow int
+	// commits: the blocks whose commitments are in the destinations' databases (written by Store,
+	// deleted by RevertHead and by the prune step)
+	commits map[int]bool
 }
 
 // opDeadline bounds one Store / RevertHead (hang detection). Generous: up to 14 histories and as many
@@ -95,7 +111,7 @@ func NewEngine(cfg Config, r *lib.RNG, driverPath, scratch string, res *lib.Resu
 	opt.NoClasses = true // declarations are generated here (own fixtures, rebuilt from the hash on replay)
 	g := lib.NewChainGen(r, cfg.SrcNew, opt)
 	e := &Engine{cfg: cfg, g: g, res: res, drained: map[felt.Felt]bool{}, stale: map[felt.Felt]map[felt.Felt]felt.Felt{}, seen: map[string]bool{},
-		scratch: scratch, stats: map[string]int{}, held: map[string][]*heldReader{}}
+		scratch: scratch, stats: map[string]int{}, held: map[string][]*heldReader{}, commits: map[int]bool{}}
 	e.u = newUniverse(g)
 	e.nodes = append(e.nodes, &node{name: "src", kind: kindName(cfg.SrcNew), newSt: cfg.SrcNew, bc: g.Src, store: g.SrcDB})
 	for i, ns := range cfg.Dst {
@@ -114,7 +130,10 @@ func NewEngine(cfg Config, r *lib.RNG, driverPath, scratch string, res *lib.Resu
 			n.fault = newFaultDB(memory.New())
 		}
 		n.store = n.fault
-		n.bc = lib.NodeOn(n.store, g.Net, ns)
+		n.seeded = cfg.Seeded
+		if err := e.startProcess(n); err != nil {
+			return nil, err
+		}
 		e.nodes = append(e.nodes, n)
 	}
 	if driverPath != "" {
@@ -125,6 +144,9 @@ func NewEngine(cfg Config, r *lib.RNG, driverPath, scratch string, res *lib.Resu
 		e.drv = drv
 		if err := e.sendUniverse(); err != nil {
 			return nil, err
+		}
+		for _, n := range e.nodes[1:] {
+			e.modelSeed(n)
 		}
 		lf, sp, ho := probeVariant()
 		for _, c := range []struct {
@@ -141,6 +163,63 @@ func NewEngine(cfg Config, r *lib.RNG, driverPath, scratch string, res *lib.Resu
 		}
 	}
 	return e, nil
+}
+
+// startProcess builds the Blockchain of a destination node on its store, as a node process would:
+// with a retention floor seeded from the database when the history says so.
+func (e *Engine) startProcess(n *node) error {
+	if !n.seeded {
+		n.bc = lib.NodeOn(n.store, e.g.Net, n.newSt)
+		return nil
+	}
+	fl, err := pruner.NewRetentionFloor(n.store)
+	if err != nil {
+		return fmt.Errorf("seeding the retention floor of %s: %w", n.name, err)
+	}
+	n.bc = lib.NodeOn(n.store, e.g.Net, n.newSt, blockchain.WithRetentionFloor(fl))
+	n.floor = e.oracleFloor()
+	return nil
+}
+
+// oracleFloor: the lowest block whose state a process started now must still serve — one below the
+// oldest block the pruner left complete (pruner/retention.go: "state one block below the oldest
+// retained block stays reconstructible"); 0 on a database that was never pruned.
+func (e *Engine) oracleFloor() int {
+	oldest := -1
+	for b := range e.commits {
+		if oldest < 0 || b < oldest {
+			oldest = b
+		}
+	}
+	if oldest < 1 {
+		return 0 // never pruned, or nothing left to scan: "an empty database seeds a floor of zero"
+	}
+	return oldest - 1
+}
+
+// modelSeed asks the Lean model which floor a process started on the node's database seeds; it must be
+// the oracle's.
+func (e *Engine) modelSeed(n *node) {
+	if !n.seeded || e.drv == nil {
+		return
+	}
+	ans, ok := e.ask("seedfloor " + n.kind)
+	if !ok {
+		return
+	}
+	var f int
+	if _, err := fmt.Sscanf(ans, "%x", &f); err != nil {
+		e.fatal("driver answer to seedfloor: %q", ans)
+		return
+	}
+	if e.res != nil {
+		e.res.Compared(1)
+	}
+	e.hit(fmt.Sprintf("floor:seeded-at-process-start=%d", f))
+	if f != n.floor {
+		e.fail(Failure{Sig: "model-seed-floor-" + n.kind, What: fmt.Sprintf("floor a new process seeds: model %d, oracle %d", f, n.floor),
+			Query: map[string]any{"node": n.name, "model": f, "impl": n.floor}})
+	}
 }
 
 func (e *Engine) Close() {
@@ -269,6 +348,7 @@ func (e *Engine) Store(d *Desc) {
 		e.hit("block:drains-system-contract")
 	}
 	e.descs = append(e.descs, d)
+	e.commits[int(b.Block.Number)] = true
 	e.shadowStore(prev, d.Diff)
 	for _, n := range e.nodes[1:] {
 		var serr error
@@ -483,6 +563,7 @@ func (e *Engine) Revert() {
 		}
 	}
 	e.shadowRevert(head.SU.StateDiff)
+	delete(e.commits, int(head.Block.Number))
 	e.reverted = append(e.reverted, *head.Block.Hash)
 	e.lastRev = e.descs[len(e.descs)-1]
 	e.descs = e.descs[:len(e.descs)-1]
@@ -575,6 +656,17 @@ func (e *Engine) Apply(s Step) error {
 			return errors.New("revert on an empty chain")
 		}
 		e.Revert()
+	case "restart":
+		e.steps = append(e.steps, s)
+		e.lastOp = "restart"
+		e.hit("op:restart")
+		e.restart()
+	case "prune-probe":
+		var m int
+		if _, err := fmt.Sscanf(s.Diff, "%x", &m); err != nil {
+			return fmt.Errorf("prune-probe %q: %w", s.Diff, err)
+		}
+		e.PruneProbe(m)
 	case "revert-dropped":
 		e.Discard(s.Op, nil)
 	case "simulate", "store-dropped", "store-late-fail", "store-wrong-root", "store-invalid":
@@ -593,10 +685,51 @@ func (e *Engine) reopen() {
 	if !e.cfg.Reopen {
 		return
 	}
+	e.restart()
+}
+
+// restart: every destination gets a new process (Blockchain, retention floor) on its database.
+func (e *Engine) restart() {
 	for _, n := range e.nodes[1:] {
-		n.bc = lib.NodeOn(n.store, e.g.Net, n.newSt)
+		if err := e.startProcess(n); err != nil {
+			e.fatal("%v", err)
+			continue
+		}
+		e.modelSeed(n)
 	}
 	e.rpc = nil // the handlers hold the old Blockchain
+}
+
+// PruneProbe deletes the block commitments below block m from every destination database — the
+// bucket pruner.OldestRetainedBlock scans — and restarts the destinations: a process started on such
+// a database seeds its floor at m-1. Nothing else is deleted: the subject here is which views the
+// retention check admits and what they answer (pruning itself is C16's).
+func (e *Engine) PruneProbe(m int) {
+	if e.broken != "" {
+		return
+	}
+	e.steps = append(e.steps, Step{Op: "prune-probe", Diff: fmt.Sprintf("%x", m)})
+	e.lastOp = "prune-probe"
+	for _, n := range e.nodes[1:] {
+		for b := 0; b < m; b++ {
+			if err := n.store.Delete(db.BlockCommitmentsKey(uint64(b))); err != nil {
+				e.fatal("deleting the commitments of block %d on %s: %v", b, n.name, err)
+			}
+		}
+	}
+	if m > e.prunedBelow {
+		e.prunedBelow = m
+	}
+	for b := range e.commits {
+		if b < m {
+			delete(e.commits, b)
+		}
+	}
+	if ans, ok := e.ask(fmt.Sprintf("prune-commitments %x", m)); ok && ans != "ok" {
+		e.fatal("driver answer to prune-commitments: %q", ans)
+	}
+	e.hit("op:prune-probe")
+	e.restart()
 }
 
 var (
